@@ -4,7 +4,7 @@
 //! indexing with advanced compression. Based on research from advanced data
 //! compression and storage systems.
 
-use crate::blob_store::sorted_uint_vec::{SortedUintVec, SortedUintVecConfig};
+use crate::blob_store::sorted_uint_vec::{SortedUintVec, SortedUintVecBuilder, SortedUintVecConfig};
 use crate::blob_store::traits::{
     BlobStore, BlobStoreStats, CompressedBlobStore, CompressionStats,
 };
@@ -144,8 +144,12 @@ struct FileHeader {
     checksum_level: u8,
     /// Compression level
     compress_level: u8,
+    /// Offset configuration: bits per in-block delta (0 in files written before this field existed: default)
+    offsets_offset_width: u8,
+    /// Offset configuration: bits per block sample (0: default)
+    offsets_sample_width: u8,
     /// Reserved padding to 128 bytes
-    _padding: [u8; 29],
+    _padding: [u8; 27],
 }
 
 impl FileHeader {
@@ -174,7 +178,9 @@ impl FileHeader {
             offsets_log2_block_units: config.offset_config.log2_block_units,
             checksum_level: config.checksum_level,
             compress_level: config.compress_level,
-            _padding: [0; 29],
+            offsets_offset_width: config.offset_config.offset_width,
+            offsets_sample_width: config.offset_config.sample_width,
+            _padding: [0; 27],
         }
     }
 
@@ -232,7 +238,9 @@ impl FileHeader {
         bytes[80] = self.offsets_log2_block_units;
         bytes[81] = self.checksum_level;
         bytes[82] = self.compress_level;
-        // bytes[83..112] remain zero (padding)
+        bytes[83] = self.offsets_offset_width;
+        bytes[84] = self.offsets_sample_width;
+        // bytes[85..112] remain zero (padding)
         
         bytes
     }
@@ -241,7 +249,7 @@ impl FileHeader {
     fn from_bytes(bytes: &[u8; HEADER_SIZE]) -> Self {
         let mut magic = [0u8; 20];
         let mut class_name = [0u8; 20];
-        let padding = [0u8; 29];
+        let padding = [0u8; 27];
         
         magic.copy_from_slice(&bytes[0..20]);
         class_name.copy_from_slice(&bytes[20..40]);
@@ -278,6 +286,8 @@ impl FileHeader {
             offsets_log2_block_units: bytes[80],
             checksum_level: bytes[81],
             compress_level: bytes[82],
+            offsets_offset_width: bytes[83],
+            offsets_sample_width: bytes[84],
             _padding: padding,
         }
     }
@@ -408,13 +418,20 @@ impl ZipOffsetBlobStore {
         header.validate()?;
 
         // Create configuration from header
+        let mut offset_config = SortedUintVecConfig {
+            log2_block_units: header.offsets_log2_block_units,
+            ..Default::default()
+        };
+        if header.offsets_offset_width != 0 {
+            offset_config.offset_width = header.offsets_offset_width;
+        }
+        if header.offsets_sample_width != 0 {
+            offset_config.sample_width = header.offsets_sample_width;
+        }
         let config = ZipOffsetBlobStoreConfig {
             compress_level: header.compress_level,
             checksum_level: header.checksum_level,
-            offset_config: SortedUintVecConfig {
-                log2_block_units: header.offsets_log2_block_units,
-                ..Default::default()
-            },
+            offset_config,
             use_secure_memory: true,
             enable_simd: true,
         };
@@ -456,9 +473,36 @@ impl ZipOffsetBlobStore {
             reader.read_exact(&mut padding)?;
         }
 
-        // Read offset index - this would need to be implemented in SortedUintVec
-        // For now, create empty offsets and populate manually
-        // TODO: Implement proper deserialization for SortedUintVec
+        // Read the offset index: the start of every record plus the end of the content, as plain
+        // little-endian u64 values; the compressed index is rebuilt from them
+        let mut offsets_raw = Vec::new();
+        (&mut *reader).take(header.offsets_bytes).read_to_end(&mut offsets_raw)?;
+        if offsets_raw.len() as u64 != header.offsets_bytes || offsets_raw.len() % 8 != 0 {
+            return Err(ZiporaError::invalid_data("offset index shorter than header.offsets_bytes"));
+        }
+        let offset_count = offsets_raw.len() / 8;
+        let expected_count = if header.records() == 0 && offset_count == 0 { 0 } else { header.records() + 1 };
+        if offset_count as u64 != expected_count {
+            return Err(ZiporaError::invalid_data("offset index does not match the record count"));
+        }
+        if offset_count > 0 {
+            let mut builder = SortedUintVecBuilder::with_config(store.config.offset_config);
+            let mut previous = 0u64;
+            for chunk in offsets_raw.chunks_exact(8) {
+                let offset = u64::from_le_bytes([
+                    chunk[0], chunk[1], chunk[2], chunk[3], chunk[4], chunk[5], chunk[6], chunk[7],
+                ]);
+                if offset < previous || offset > header.content_bytes {
+                    return Err(ZiporaError::invalid_data("offset index is not sorted or points past the content"));
+                }
+                previous = offset;
+                builder.push(offset)?;
+            }
+            if previous != header.content_bytes {
+                return Err(ZiporaError::invalid_data("offset index does not end at the end of the content"));
+            }
+            store.offsets = builder.finish()?;
+        }
 
         // Update statistics
         store.stats.uncompressed_size = header.unzip_size as usize;
@@ -479,7 +523,7 @@ impl ZipOffsetBlobStore {
     pub fn save_to_writer<W: Write>(&self, writer: &mut W) -> Result<()> {
         // Calculate sizes
         let content_bytes = self.content.len() as u64;
-        let offsets_bytes = self.offsets.memory_usage() as u64;
+        let offsets_bytes = self.offsets.len() as u64 * 8;
         let content_padding = (16 - (content_bytes % 16)) % 16;
         let file_size = HEADER_SIZE as u64 + content_bytes + content_padding + offsets_bytes + FOOTER_SIZE as u64;
 
@@ -505,7 +549,10 @@ impl ZipOffsetBlobStore {
             writer.write_all(&padding)?;
         }
 
-        // Write offset index - TODO: Implement serialization for SortedUintVec
+        // Write offset index: one little-endian u64 per entry (record starts + end of content)
+        for i in 0..self.offsets.len() {
+            writer.write_all(&self.offsets.get(i)?.to_le_bytes())?;
+        }
 
         // Write footer with checksum - TODO: Implement XXHash64 checksum
 
